@@ -3,6 +3,7 @@ package rules
 import (
 	"fmt"
 	"go/types"
+	"sort"
 	"strings"
 
 	"golang.org/x/tools/go/ssa"
@@ -160,9 +161,19 @@ func runC05(c *core.Ctx) {
 	}
 
 	c.Rule("C05.choosers", "in LinkSystemUsingMulticodecRegistry each chooser closure passes to LookupEncoder/LookupDecoder/GetHasher a value derived only from its own link/prototype parameter (codec / multihash code of that prototype)", 3)
-	if fn := p.Func("linking/cid", "", "LinkSystemUsingMulticodecRegistry"); fn != nil {
-		for _, cl := range fn.AnonFuncs {
-			for _, ci := range core.Calls(cl) {
+	if fn, chs := linkSystemChoosers(p); fn != nil {
+		var names []string
+		for n := range chs {
+			names = append(names, n)
+		}
+		sort.Strings(names)
+		if len(names) < 3 {
+			c.Undecided(core.FuncKey(fn)+"#choosers", p.Pos(fn.Pos()), fmt.Sprintf("only %v of the three chooser fields are given a locally decidable function", names))
+		}
+		for _, n := range names {
+			cl := chs[n]
+			prm := chooserParam(cl)
+			for _, ci := range core.CallsR(cl) {
 				o := core.CalleeObj(ci)
 				if o == nil {
 					continue
@@ -173,18 +184,18 @@ func runC05(c *core.Ctx) {
 					continue
 				}
 				args := core.Args(ci)
-				if len(args) != 1 || len(cl.Params) != 1 {
-					c.Undecided(core.FuncKey(cl)+"#"+o.Name(), p.Pos(ci.Pos()), "unexpected chooser shape")
+				if len(args) != 1 || cl.Signature.Params().Len() != 1 || prm == nil {
+					c.Undecided(core.FuncKey(fn)+"#"+o.Name(), p.Pos(ci.Pos()), "unexpected chooser shape")
 					continue
 				}
-				sl := core.BackSlice(args[0], core.SliceOpts{ThroughCalls: true, Stores: true})
-				onlyParam := sl[cl.Params[0]]
+				sl := core.BackSlice(args[0], core.SliceOpts{ThroughCalls: true, Stores: true, Region: core.RegionOf(cl)})
+				onlyParam := sl[prm]
 				for w := range sl {
 					switch w.(type) {
 					case *ssa.FreeVar, *ssa.Global:
 						onlyParam = false
 					case *ssa.Parameter:
-						if w != ssa.Value(cl.Params[0]) {
+						if w != ssa.Value(prm) && w.(*ssa.Parameter).Parent() == cl {
 							onlyParam = false
 						}
 					}
@@ -281,12 +292,16 @@ func runC05(c *core.Ctx) {
 			}
 			fns = append(fns, core.WithClosures(fn)...)
 		}
-		if ch := p.Func("linking/cid", "", "LinkSystemUsingMulticodecRegistry"); ch != nil {
-			fns = append(fns, ch.AnonFuncs...)
+		if _, chs := linkSystemChoosers(p); chs != nil {
+			for _, n := range []string{"DecoderChooser", "EncoderChooser", "HasherChooser"} {
+				if chs[n] != nil {
+					fns = append(fns, chs[n])
+				}
+			}
 		}
 		isChooser := map[*ssa.Function]bool{}
-		if ch := p.Func("linking/cid", "", "LinkSystemUsingMulticodecRegistry"); ch != nil {
-			for _, a := range ch.AnonFuncs {
+		if _, chs := linkSystemChoosers(p); chs != nil {
+			for _, a := range chs {
 				isChooser[a] = true
 			}
 		}
@@ -334,8 +349,13 @@ const freshHasherText = "the registry HasherChooser returns, on every success re
 // checkFreshHasher is shared by C05 (links do not depend on previous operations) and C20 (hashers are per call).
 func checkFreshHasher(c *core.Ctx) {
 	p := c.P
-	if fn := p.Func("linking/cid", "", "LinkSystemUsingMulticodecRegistry"); fn != nil {
-		for _, cl := range fn.AnonFuncs {
+	if _, chs := linkSystemChoosers(p); chs != nil {
+		for _, name := range []string{"HasherChooser"} {
+			cl := chs[name]
+			if cl == nil {
+				c.Undecided("linking/cid.LinkSystemUsingMulticodecRegistry#HasherChooser", "-", "the function installed as HasherChooser is not locally decidable")
+				continue
+			}
 			res := cl.Signature.Results()
 			if res.Len() != 2 {
 				continue
